@@ -735,3 +735,12 @@ func sharedSource(lines []string) bool {
 	}
 	return false
 }
+
+// after an export/import the family state is re-bound to the new application instance
+func (f *distrFam) rebind(x *Exec) {
+	app := x.env.app
+	f.fb = &faultyBank{Keeper: app.BankKeeper, faults: map[int]bool{}}
+	f.keeper = distrkeeper.NewKeeper(app.AppCodec(), app.GetKey(distrtypes.StoreKey), app.GetMemKey(distrtypes.MemStoreKey),
+		app.GetSubspace(distrtypes.ModuleName), f.fb, app.AccountKeeper, x.env.gov)
+	f.helperBk = bankkeeper.NewBaseKeeper(app.AppCodec(), app.GetKey(banktypes.StoreKey), app.AccountKeeper, app.GetSubspace(banktypes.ModuleName), map[string]bool{})
+}
